@@ -806,3 +806,164 @@ func genZeroValue(w *World, r *Rng, tier string, tag string) {
 		w.Conv(z, other)
 	}
 }
+
+// genStripedAliased: striped writes whose rows are prefixes of one another (passed as slices of ONE backing array by
+// World.WriteStriped): same first element address, different lengths, over buffers holding stale data
+func genStripedAliased(w *World, r *Rng, tier string) {
+	reps := 12
+	if tier == "thorough" {
+		reps = 120
+	}
+	for rep := 0; rep < reps; rep++ {
+		k := r.Kind()
+		ch := r.Range(2, 4)
+		fr := r.Range(2, 7)
+		w.Case(fmt.Sprintf("C01 striped-aliased %s ch%d fr%d", k, ch, fr))
+		b := w.Alloc(k, false, ch, fr, fr)
+		fillAll(w, b, rep+3)
+		mono := mixVals(r, k, r.Range(1, fr+1))
+		cols := make([][]uint64, ch)
+		for c := range cols {
+			n := len(mono)
+			if c > 0 {
+				n = r.Range(0, len(mono))
+			}
+			if rep%4 == 3 && c == ch-1 {
+				n = len(mono) // the longest row last
+			}
+			cols[c] = append([]uint64{}, mono[:n]...)
+		}
+		if rep%3 == 0 {
+			cols[0], cols[ch-1] = cols[ch-1], cols[0]
+		}
+		w.WriteStriped(b, k, cols)
+		w.ReadStriped(b, k, cols)
+	}
+}
+
+// genGrowMany: twenty and more GROWING appends on one buffer (each source is just long enough to force a
+// reallocation), judged natively against plain slices: after every one the capacity is a whole number of frames that
+// is at least the length, and the contents are the old contents followed by the source's (C03, C12)
+func genGrowMany(g *Kern, r *Rng, tier string) {
+	for _, ch := range []int{2, 3, 5} {
+		bad := ""
+		label := fmt.Sprintf("kind=i16 ch=%d appends=22", ch)
+		p := try(func() {
+			b := signal.Alloc[int16](signal.Allocator{Channels: ch, Length: 1, Capacity: 1})
+			var ref []int16
+			for i := 0; i < ch; i++ {
+				b.SetSample(i, int16(i+1))
+				ref = append(ref, int16(i+1))
+			}
+			for it := 0; it < 22 && bad == ""; it++ {
+				frames := (b.Cap()-b.Len())/ch + 1 + it%2
+				if b.Len()+frames*ch > 6<<20 {
+					break
+				}
+				src := signal.Alloc[int16](signal.Allocator{Channels: ch, Length: frames, Capacity: frames})
+				for i := 0; i < src.Len(); i++ {
+					src.SetSample(i, int16((i*7+it)%251-125))
+					ref = append(ref, int16((i*7+it)%251-125))
+				}
+				b.Append(src)
+				if b.Len() != len(ref) || b.Cap() < b.Len() || b.Cap()%ch != 0 || b.Capacity() != b.Cap()/ch {
+					bad = fmt.Sprintf("after %d growing appends: Len=%d (want %d) Cap=%d Capacity=%d", it+1, b.Len(), len(ref), b.Cap(), b.Capacity())
+				}
+				for i := 0; bad == "" && i < len(ref); i += 1 + len(ref)/4096 {
+					if b.Sample(i) != ref[i] {
+						bad = fmt.Sprintf("after %d growing appends: pos=%d got=%d want=%d", it+1, i, b.Sample(i), ref[i])
+					}
+				}
+			}
+		})
+		if p != "" {
+			bad = "panic=" + strings.ReplaceAll(p, " ", "_")
+		}
+		g.goref("C03,C12", "many-growing-appends", strings.ReplaceAll(bad, " ", "_"), label)
+	}
+}
+
+// genBulkPool: a hundred buffers of one pool held at the same time, stamped, verified, put back, for several rounds
+// (more than 256 puts): buffers held together never share storage and every one is fresh when handed out (C10)
+func genBulkPool(g *Kern, r *Rng, tier string) {
+	rounds := 6
+	if tier == "thorough" {
+		rounds = 30
+	}
+	for _, held := range []int{70, 100, 130} {
+		bad := ""
+		label := fmt.Sprintf("kind=i32 ch=2 L=1 K=3 held=%d rounds=%d", held, rounds)
+		p := try(func() {
+			pool := signal.PoolAlloc[int32](signal.Allocator{Channels: 2, Length: 1, Capacity: 3})
+			for rd := 0; rd < rounds && bad == ""; rd++ {
+				bufs := make([]*signal.Buffer[int32], held)
+				for i := range bufs {
+					b := pool.Get()
+					if b.Channels() != 2 || b.Length() != 1 || b.Capacity() != 3 {
+						bad = fmt.Sprintf("round=%d buffer=%d shape", rd, i)
+					}
+					full := b.Slice(0, 3)
+					for j := 0; j < full.Len(); j++ {
+						if full.Sample(j) != 0 {
+							bad = fmt.Sprintf("round=%d buffer=%d not zero at %d", rd, i, j)
+						}
+						full.SetSample(j, int32(rd*1000+i+1))
+					}
+					bufs[i] = b
+				}
+				for i, b := range bufs {
+					full := b.Slice(0, 3)
+					for j := 0; j < full.Len() && bad == ""; j++ {
+						if full.Sample(j) != int32(rd*1000+i+1) {
+							bad = fmt.Sprintf("round=%d buffer=%d shares storage with another held buffer (pos %d holds %d)", rd, i, j, full.Sample(j))
+						}
+					}
+				}
+				for _, b := range bufs {
+					pool.Put(b)
+				}
+			}
+		})
+		if p != "" {
+			bad = "panic=" + strings.ReplaceAll(p, " ", "_")
+		}
+		g.goref("C10", "bulk-pool", strings.ReplaceAll(bad, " ", "_"), label)
+	}
+}
+
+// genLocalTypes: two function-local named types with the SAME name and different underlying types (their qualified
+// names coincide: anything keyed by the type's name confuses them), allocated in both orders (C13)
+func localSampleA() (int, int) {
+	type sample int16
+	b := signal.Alloc[sample](signal.Allocator{Channels: 2, Length: 1, Capacity: 2})
+	return int(b.BitDepth()), b.Cap()
+}
+func localSampleB() (int, int) {
+	type sample float64
+	b := signal.Alloc[sample](signal.Allocator{Channels: 2, Length: 1, Capacity: 2})
+	return int(b.BitDepth()), b.Cap()
+}
+func localSampleC() (int, int) {
+	type sample uint8
+	b := signal.Alloc[sample](signal.Allocator{Channels: 2, Length: 1, Capacity: 2})
+	return int(b.BitDepth()), b.Cap()
+}
+func genLocalTypes(g *Kern) {
+	bad := ""
+	p := try(func() {
+		for round := 0; round < 2 && bad == ""; round++ {
+			for _, c := range []struct {
+				f    func() (int, int)
+				want int
+			}{{localSampleA, 16}, {localSampleB, 64}, {localSampleC, 8}, {localSampleB, 64}, {localSampleA, 16}} {
+				if d, cp := c.f(); d != c.want || cp != 4 {
+					bad = fmt.Sprintf("local type `sample`: bit depth %d want %d (cap %d)", d, c.want, cp)
+				}
+			}
+		}
+	})
+	if p != "" {
+		bad = "panic=" + strings.ReplaceAll(p, " ", "_")
+	}
+	g.goref("C13", "same-named-local-types", strings.ReplaceAll(bad, " ", "_"), "types=sample(int16),sample(float64),sample(uint8)")
+}
